@@ -2,6 +2,7 @@ import GnoVerif.Proofs.C20Wire
 import GnoVerif.Proofs.C20Val
 import GnoVerif.Proofs.C20Witness
 import GnoVerif.Proofs.C20Top
+import GnoVerif.Proofs.C20Bounds
 /-!
 Property C20 — amino encoding is consistent, round-trips and rejects bad input safely.
 
@@ -158,6 +159,41 @@ theorem omitted_value_is_zero (env : Env) (v : Val) (d : Nat) (td : TD) (bs : By
     (hom : isDefault env td v = true ∨ bs = [0]) (hlen : bs.length < 2 ^ 64) (k : Nat) (hk : d ≤ k) :
     v = zeroVal env k td :=
   zero_val env v d td bs 0 hwf he hom hlen k hk
+
+/-! ## the codec: arbitrary bytes -/
+
+/-- **no "impossible slide"**: for EVERY descriptor, every byte string, every fuel and
+every decoder state, whatever the reflect decoder accepts, the consumed-byte count it
+reports is within the buffer it was given.  In the Go code each `slide(&bz, &n, _n)`
+panics iff `_n > len(bz)`, and `_n` is this count — including the places where the
+count is computed from the CANONICAL size of a length prefix (`decodeMaybeBare`) and
+not from the bytes read; that shortcut can under-count (finding dec-padded-len) but,
+by this theorem, never over-counts.  The model's decoder is a total function, so this
+is the "neither panics" clause for the reflection decoder's byte accounting. -/
+theorem decoder_stays_in_buffer (env : Env) (k : Nat) (td : TD) (bz : Bytes) (fnum : Nat) (bare bo : Bool)
+    (depth : Nat) (v : Val) (n : Nat) (h : dec env k td bz fnum bare bo depth = some (v, n)) :
+    n ≤ bz.length :=
+  (boundsAt env k).1 td bz fnum bare bo depth v n h
+
+/-- the same for the struct field loop, the list loops and the Any decoder. -/
+theorem decoder_loops_stay_in_buffer (env : Env) (k : Nat) :
+    (∀ id bz bare depth v n, decIface env k id bz bare depth = some (v, n) → n ≤ bz.length) ∧
+    (∀ e bz bo depth acc n0 vs n, decPacked env k e bz bo depth acc n0 = some (vs, n) → n ≤ n0 + bz.length) ∧
+    (∀ e ptr ne impl fnum bz depth acc n0 vs n,
+      decUnpacked env k e ptr ne impl fnum bz depth acc n0 = some (vs, n) → n ≤ n0 + bz.length) ∧
+    (∀ fs bz last depth acc n0 vs n, decFields env k fs bz last depth acc n0 = some (vs, n) → n ≤ n0 + bz.length) :=
+  (boundsAt env k).2
+
+/-- the canonical length prefix is the shortest: the count `decodeMaybeBare` adds never
+exceeds the bytes the prefix really occupied. -/
+theorem canonical_prefix_is_shortest {bz : Bytes} {v n : Nat} (h : decUvarint bz = some (v, n)) :
+    uvarintSize v ≤ n :=
+  uvarintSize_le h
+
+/-- on the padded witness the decoder reports 5 + … fewer bytes than the field occupies
+(the under-count), within the buffer as the theorem says. -/
+example : dec envW 100 (.ref nBlockID) [0x85, 0x80, 0x80, 0x00, 0x0a, 0x03, 0x3a, 0x01, 0x07] 0 false false 0 =
+    some (.struct [.x [0x3a, 0x01, 0x07], .struct [.i 0, .x []]], 6) := by decide +kernel
 
 /-! ## the codec: rejection -/
 
